@@ -22,7 +22,9 @@ oracle ("as its annotation says"):
               edge: annotation true ⇒ exactly one call of the generated emitter that sends PropertiesChanged with
               {N: value of N's getter} and no invalidated names; invalidates ⇒ exactly one call of the emitter that
               sends an empty map and invalidated = [N]; false / const ⇒ no emission call (R-COUNT). Emitters are
-              classified by what their body passes to Properties::properties_changed (and must name the interface).
+              classified by what their body passes to Properties::properties_changed (and must name the interface);
+              no emitter serves the setters of two properties. (Where the extractor could not evaluate the element
+              of the promoted `&[N]`, the invalidating emitter is accepted by shape and by that exclusivity.)
 
 Not decided / dropped: run-time values (that the getter returns what the setter stored); wrongly-typed values beyond
 "conversion failure ⇒ Err, setter not run" (the conversions themselves are zvariant's, C08); interfaces the repository
@@ -274,8 +276,9 @@ def classify_emitter(it, E):
         name = None
         if len(keys) == 1 and keys[0] is not None and inval == []:
             kind, name = "true", keys[0]
-        elif not keys and inval is not None and len(inval) == 1 and isinstance(inval[0], str):
-            kind, name = "invalidates", inval[0]
+        elif not keys and inval is not None and len(inval) == 1:
+            # (the element of the promoted `&[name]` is not always evaluated by the extractor: name may be None)
+            kind, name = "invalidates", inval[0] if isinstance(inval[0], str) else None
         return {"kind": kind, "name": name, "iface": iface, "getter": getters[0].callee if len(getters) == 1 else None,
                 "value_ok": value_ok, "keys": keys, "inval": inval, "where": pc.where}
     return None
@@ -289,7 +292,7 @@ def iface_name(ctx, it):
     return None
 
 
-def check_setter_arm(ctx, it, M, name, props, emitters, getters_by_name):
+def check_setter_arm(ctx, it, M, name, props, emitters, getters_by_name, used):
     f = it.f
     key = "%s:set:%s" % (it.key, name)
     calls = mir.calls(M)
@@ -345,8 +348,11 @@ def check_setter_arm(ctx, it, M, name, props, emitters, getters_by_name):
             herr.add((sb, errt))
     succ = L.count_range(M, h.b, ew, avoid_edges=herr)
     kinds = sorted({(emitters[c.callee]["kind"], emitters[c.callee]["name"]) for c in em_calls}, key=str)
+    for c in em_calls:
+        used.setdefault(c.callee, set()).add(name)
     if exp in ("true", "invalidates"):
-        good = succ == (1, 1) and kinds == [(exp, name)]
+        good = succ == (1, 1) and len(kinds) == 1 and kinds[0][0] == exp and \
+            (kinds[0][1] == name or (kinds[0][1] is None and exp == "invalidates"))
         detail = "annotation `%s`: emission calls after a successful set (min, max) = %s, emitters called: %s" % (exp, succ, kinds)
     elif exp in ("false", "const"):
         good = not em_calls and (succ is None or succ == (0, 0))
@@ -496,13 +502,17 @@ def generated(ctx, its):
             cors = [b for b in famm.values() if b.kind == "coroutine" and any(b.id.startswith(c + "::") or b.id == c for c in cl)
                     and any(it.is_handler_call(x) for x in mir.calls(b))]
             arm_cor[nm] = cors
+        used = {}
         for nm, cors in sorted(arm_cor.items()):
             n_set += 1
             ctx.ob("P-SET", "%s:set:%s:one-arm-coroutine" % (it.key, nm), len(cors) == 1,
                    "%d coroutine(s) with setter code for `%s`" % (len(cors), nm), S.where)
             for M in cors:
-                check_setter_arm(ctx, it, M, nm, props, emitters, getters_by_name)
+                check_setter_arm(ctx, it, M, nm, props, emitters, getters_by_name, used)
                 kinds_seen.add(props.get(nm, (None, None))[1])
+        for eid, names in sorted(used.items()):
+            ctx.ob("P-EMIT", "%s:emitter:%s:used-by-one-property" % (it.key, short(eid)), len(names) == 1,
+                   "emitter is called by the setter arm(s) of %s" % sorted(names), emitters[eid]["where"])
     ctx.floor("P-ACCESS", "generated interfaces with properties analysed", n_if, 2)
     ctx.floor("P-GET", "generated get arms analysed", n_get, 5)
     ctx.floor("P-SET", "generated setter arms analysed", n_set, 5)
